@@ -120,7 +120,14 @@ def Lval(x):
     return -0.5 * float(np.sum((x - CENTRE[0]) ** 2)) + 0.3 * float(np.cos(x[0] * 1.7))
 
 
+MIXED = [False]   # blobs of mixed Python type: an int for part of the space, a float elsewhere (dtype inferred by the library)
+
+
 def Lblob(x):
+    if MIXED[0] == "bytes":
+        return (b"inside:" if x[0] > 0 else b"o") + repr(round(float(x[0]), 3 if x[0] > 0 else 1)).encode()   # byte strings of varying length
+    if MIXED[0] and x[0] < 0:
+        return 0
     return float(x[0] * 3.0 - x[-1] * 0.5 + 7.0)
 
 
@@ -151,6 +158,7 @@ def check_batch(run, u, x, logl, blobs, where, what):
 def run_cfg(run, cfg, seed, tier):
     from tempest import Sampler
     blobs = cfg.pop("blobs")
+    MIXED[0] = "bytes" if blobs == "bytes" else blobs == "mixed"
     vec = cfg.pop("vectorize")
     hole = cfg.pop("hole")
     what = dict(cfg=dict(cfg, blobs=blobs, vectorize=vec, hole=hole), np_seed=seed)
@@ -338,7 +346,7 @@ def edge_planted(run, tier, rng):
 
 
 def sweep(run, tier, rng):
-    opts = dict(sample=["tpcn", "rwm"], resample=["mult", "syst"], clustering=[False, True], blobs=[False, True, "inferred"],
+    opts = dict(sample=["tpcn", "rwm"], resample=["mult", "syst"], clustering=[False, True], blobs=[False, True, "inferred", "mixed", "bytes"],
                 vectorize=[False, True, "buffer"], bc=["none", "periodic", "reflective", "mixed"], vv=[None, 0.5], hole=[False, True],
                 centre=[0.0, 3.6])
     keys = list(opts)
